@@ -3,6 +3,7 @@ CONSTANTS
   MaxOps = 2
   Deviations <- NoDev
   JunkBytes <- MCJunk
+  RegistryOps = FALSE
 CHECK_DEADLOCK FALSE
 
 INVARIANT Export
